@@ -78,6 +78,13 @@ func c06Profiles(tier string) []Profile {
 			}}
 	}
 	var ps []Profile
+	// the same range visits beside another reader (lazy loading and in-visit
+	// eviction of the two visits interfere)
+	for _, sc := range c05More() {
+		if sc.Name == "S9-value-vs-keyonly" {
+			ps = append(ps, sc.Profile(2))
+		}
+	}
 	for _, c := range cmps {
 		ps = append(ps, mk(c).Profile(fmt.Sprintf("comparator %s: contents = every Set sequence of length <= %d over keys {b, dd, f} x priorities %v (every subset, insertion order, priority order incl. ties and overwrites) x cache state in {dirty, flushed, flushed+evicted (every random path), reopened, reopened+GetItem with value of each key, reopened+partial key-only visit} x API in {Ascend, Descend, AscendEx, DescendEx, IterateAscend, IterateDescend} x target in {nil, \"\", a, b, c, d, dd, ddd, e, f, g} x withValue x visitor stop position in {never, 0..n}; oracle: delivered sequence = model range under that comparator truncated at the stop, key/priority/value exact, Ex depth = true depth from the side-effect-free walk", c, depth, prios)))
 	}
